@@ -139,8 +139,40 @@ impl Sim {
         let a = offer.amount.u128();
         let q = match self.pair_simulation(&p, &info, a) {
             Ok(q) => q,
-            Err(_) => {
+            Err(e) => {
                 cov.reach("C12.sim_failed");
+                // "whenever that swap succeeds": a swap that goes through although its quote failed
+                let op = match &offer.asset {
+                    AssetRef::Native(d) => Op::SwapExec {
+                        pair,
+                        offer: offer.clone(),
+                        funds: vec![Fund { denom: d.clone(), amount: offer.amount }],
+                        belief: None,
+                        max_spread: None,
+                        to: None,
+                    },
+                    other => Op::SwapHook {
+                        pair,
+                        via: Via::Cw20(other.clone()),
+                        sent: offer.amount,
+                        offer: offer.clone(),
+                        belief: None,
+                        max_spread: None,
+                        to: None,
+                        from: None,
+                    },
+                };
+                let (o, _d, _t) = self.dry_run(sender, &op, None);
+                if o.is_ok() {
+                    cov.eval("C12", "a");
+                    cov.violate(
+                        "C12",
+                        "a",
+                        "simulation-fails-where-swap-succeeds",
+                        ev.seq,
+                        format!("pair {} offer {} {:?}: the swap succeeds but its simulation fails: {}", p.addr, a, offer.asset, e),
+                    );
+                }
                 return out("audit");
             }
         };
@@ -276,8 +308,20 @@ impl Sim {
         }
         let offer = match r {
             Ok(r) => r.offer_amount.u128(),
-            Err(_) => {
+            Err(e) => {
                 cov.reach("C12.reverse_failed_in_domain");
+                // with reserves and ask below 2^56 no intermediate of the closed form leaves 256
+                // bits and the result fits 128 bits: there the query has to answer
+                if x < (1u128 << 56) && y < (1u128 << 56) && ask_amt < (1u128 << 56) {
+                    cov.eval("C12", "b");
+                    cov.violate(
+                        "C12",
+                        "b",
+                        "reverse-fails-inside-domain",
+                        ev.seq,
+                        format!("x={} y={} c={} ask={}: {}", x, y, c, ask_amt, e),
+                    );
+                }
                 return out("audit");
             }
         };
@@ -406,6 +450,21 @@ impl Sim {
                     ev.seq,
                     format!("router says {} but the hop-by-hop fold fails: {}", g, e),
                 );
+            }
+            (Err(e), Ok(f)) => {
+                // only for a properly chained route, which the execution entry accepts as well
+                let chained = hops.iter().all(|h| h.offer != h.ask)
+                    && hops.windows(2).all(|w| w[0].ask == w[1].offer);
+                if chained {
+                    cov.eval("C12", clause);
+                    cov.violate(
+                        "C12",
+                        clause,
+                        "router-fails-where-fold-answers",
+                        ev.seq,
+                        format!("{} hops, amount {}: hop-by-hop fold gives {} but the router fails: {}", hops.len(), amount, f, e),
+                    );
+                }
             }
             _ => {}
         }
